@@ -495,6 +495,24 @@ func (e *Env) call(n *SNode) SV {
 		}
 		hh := x.heapRead(e.st, name+"#has", ArraySort(IntSort, ArraySort(ks, BoolSort)))
 		return svTerm(B.And(B.Neq(a.V.One(), B.Int(0)), B.Select(B.Select(hh, a.V.One()), argT(1))))
+	case "keys", "vals":
+		// keys(m): the key set of map m as a value (IntSet); vals(m): its key -> value function
+		// (maps with scalar keys and values)
+		a := e.eval(n.Args[0])
+		name, ks, m := x.mapHeapNames(a.V.T)
+		if ks == nil {
+			e.fail("%s() on a map with aggregate keys", n.Name)
+		}
+		if n.Name == "keys" {
+			hh := x.heapRead(e.st, name+"#has", ArraySort(IntSort, ArraySort(ks, BoolSort)))
+			return svTerm(B.Select(hh, a.V.One()))
+		}
+		lay := LayoutOf(m.Elem())
+		if len(lay.Leaves) != 1 {
+			e.fail("vals() on a map with aggregate values")
+		}
+		hv := x.heapRead(e.st, name+"#val"+lay.Leaves[0].Path, ArraySort(IntSort, ArraySort(ks, lay.Leaves[0].Sort)))
+		return svTerm(B.Select(hv, a.V.One()))
 	case "ifacelen":
 		// length of a slice boxed in an interface value (e.g. sort.Slice's argument)
 		a := e.eval(n.Args[0])
